@@ -1452,6 +1452,8 @@ FLOAT_REPS = {
     '-nan': -math.nan if math.copysign(1.0, -math.nan) < 0 else math.copysign(math.nan, -1.0), 'nan': math.copysign(math.nan, 1.0),
     '-0.0': -0.0, '0.0': 0.0, '2.0': 2.0, '-2.0': -2.0, '1e20': 1e20, '1.5': 1.5, '-1.5': -1.5, '5e-324': 5e-324,
     'max': 1.7976931348623157e308, '-max': -1.7976931348623157e308, 'inf': math.inf, '-inf': -math.inf,
+    # one ulp past an integer, the largest non-integral double, a fraction next to 1: integrality tests by tolerance get these wrong
+    '1+ulp': 1.0000000000000002, '1000+ulp': 1000.0000000000001, '2^52-0.5': 4503599627370495.5, '1-ulp': 0.9999999999999999, '-(1+ulp)': -1.0000000000000002,
 }
 
 
